@@ -255,7 +255,8 @@ def gen_C11(v, n, model):
         junk = [j for j in junk if j["path"].rsplit("/", 1)[0] in have]
         verdict = model([{"op": "sid", "path": j["path"], "config": cfg} for j in junk])
         junk = [j for j, a in zip(junk, verdict) if a.get("ok", {}).get("type") == ""]
-        out.append(_op("C11", {"leaves": ls, "junk": junk[:8], "searches": _searches(v, leaves, 8) + ["hamlet/a/**", "hamlet/s/**", "hamlet/*"]}))
+        out.append(_op("C11", {"leaves": ls, "junk": junk[:8], "searches": _searches(v, leaves, 8) + ["hamlet/a/**", "hamlet/s/**", "hamlet/*"],
+                               "const_searches": families.constant_searches(v, leaves, 6)}))
     return out
 
 
@@ -328,6 +329,16 @@ def gen_C15(v, n):
                     d = [kv for kv in d if " " not in kv[0] and kv[0] != "sid"]
                 return {"do": kind, "sid": s, "data": d}
             return {"do": kind, "sid": s}
+        def searches():
+            res = []
+            for s in alpha[:3]:
+                segs = s.split("/")
+                if len(segs) > 3 and not any(ch in s for ch in "*[]?,>"):
+                    res.append("/".join(segs[:-1] + ["*"]))
+                    res.append("/".join(segs[:-2] + ["*", "*"]))
+                    res.append("/".join(segs[:-3] + ["*", segs[-2], "*"]))
+            return res
+        srch = searches()
         if u % 3 == 0:
             # exhaustive: every ordered pair of write operations over the alphabet, each followed by reads
             writes = [(k, s) for k in ("create", "create+", "update") for s in alpha[:5]]
@@ -335,6 +346,8 @@ def gen_C15(v, n):
             rng.shuffle(pairs)
             for (k1, s1), (k2, s2) in pairs[:60]:
                 ops = [mk(k1, s1), mk(k2, s2)] + [{"do": "get_data", "sid": s} for s in alpha[:3]] + [{"do": "exists", "sid": s} for s in alpha[:4]]
+                if srch:
+                    ops.append({"do": "get_search", "s": rng.choice(srch)})
                 out.append(_op("C15", {"ops": ops}))
         else:
             ops = []
@@ -345,8 +358,10 @@ def gen_C15(v, n):
                     ops.append(mk(rng.choice(["create", "create+"]), s))
                 elif x < 0.55:
                     ops.append(mk(rng.choice(["update", "set"]), s))
-                elif x < 0.8:
+                elif x < 0.75:
                     ops.append({"do": "get_data", "sid": s})
+                elif x < 0.85 and srch:
+                    ops.append({"do": "get_search", "s": rng.choice(srch)})
                 else:
                     ops.append({"do": "exists", "sid": s})
             out.append(_op("C15", {"ops": ops}))
@@ -485,7 +500,9 @@ def gen_C10(v, n):
 def gen_C17(v, n):
     rng = v.rng
     out = []
-    for _ in range(n):
+    tries = 0
+    while len(out) < n and tries < 8 * n:
+        tries += 1
         leaves = families.tree_universe(v, nleaf=2)
         ls = _leaf_strings(leaves)
         if len(ls) < 2 or any("." in seg for s in ls for seg in s.split("/")[:-1]):
